@@ -273,7 +273,51 @@ def bottomup_predictor(n_nodes, edges, scale, max_stride, cms_stride, paf_stride
     return p
 
 
-def run_predictor(pred, provider, path, make_labels=False):
-    """Real make_pipeline + predict on a file. provider: 'LabelsReader' (slp path) | 'VideoReader' (video path)."""
+class PurityError(Exception):
+    """The inference model changed its inputs, or gave a different answer for the same batch the second time."""
+
+
+class TwiceProxy:
+    """Stands in for Predictor.inference_model: every batch is forwarded TWICE with the same tensors (a 2-step call
+    history on one layer object).  The input tensors must be unchanged after each call and the second result must equal
+    the first; the first result is handed on."""
+
+    def __init__(self, model):
+        self.__dict__["_model"] = model
+        self.__dict__["issues"] = []
+
+    def __getattr__(self, name):
+        return getattr(self.__dict__["_model"], name)
+
+    def __setattr__(self, name, value):
+        setattr(self.__dict__["_model"], name, value)
+
+    def __call__(self, ex):
+        from mc import history as Hs
+
+        snap = {k: v.clone() for k, v in ex.items() if isinstance(v, torch.Tensor)}
+        out1 = self.__dict__["_model"](dict(ex))
+        changed = [k for k, v in snap.items() if not (isinstance(ex.get(k), torch.Tensor) and ex[k].shape == v.shape and torch.equal(torch.nan_to_num(ex[k].float(), nan=-7.0), torch.nan_to_num(v.float(), nan=-7.0)))]
+        if changed:
+            self.issues.append(f"the inference model modified its input tensor(s) {changed} in place")
+            for k in changed:  # restore, so that the second call sees what the first saw
+                ex[k] = snap[k].clone()
+        a = Hs._to_np(out1)
+        out2 = self.__dict__["_model"](dict(ex))
+        if not Hs.same(a, Hs._to_np(out2), atol=1e-5):
+            self.issues.append("the same batch forwarded a second time through the same inference-model object gives a different result")
+        return out1
+
+
+def run_predictor(pred, provider, path, make_labels=False, twice=False):
+    """Real make_pipeline + predict on a file. provider: 'LabelsReader' (slp path) | 'VideoReader' (video path).
+    twice=True: every batch goes through the inference model twice (TwiceProxy); a difference raises PurityError."""
     pred.make_pipeline(provider, path, queue_maxsize=4)
-    return pred.predict(make_labels=make_labels)
+    if twice:
+        if pred.inference_model is None:
+            pred._initialize_inference_model()
+        pred.inference_model = TwiceProxy(pred.inference_model)
+    out = pred.predict(make_labels=make_labels)
+    if twice and pred.inference_model.issues:
+        raise PurityError("; ".join(sorted(set(pred.inference_model.issues))))
+    return out
